@@ -99,7 +99,7 @@ func RunShards(testName string, nshards, total int, perChild time.Duration, extr
 		go func(s int) {
 			defer wg.Done()
 			start := 0
-			for attempt := 0; attempt < 8; attempt++ {
+			for attempt := 0; attempt < 3; attempt++ {
 				logp := filepath.Join(dir, fmt.Sprintf("log-%d-%d.txt", s, attempt))
 				lf, _ := os.Create(logp)
 				cmd := exec.Command(os.Args[0], "-test.run", "^"+testName+"$", "-test.timeout", "0")
